@@ -23,6 +23,7 @@ import (
 	"os"
 	"runtime/debug"
 	"runtime/pprof"
+	"sort"
 	"strings"
 	"time"
 
@@ -61,6 +62,7 @@ type env struct {
 	unmDenom, freeDenom      string
 	gov                      govv1beta1.Handler
 	txCache                  map[string]sdk.Tx
+	pend                     map[string][]pending
 	deadline                 time.Time
 	capped                   bool
 	ctr2                     int // running index of depth-2 prefixes (shard key)
@@ -110,7 +112,7 @@ func run(r *report.Run, shard, nshards int, replayFile string) {
 		Users: []string{"adm", "U1", "U2", "EX", "POOR"}, Height: h0})
 	ctx := w.Root
 	must(w.StdChain(ctx, ref))
-	e := &env{w: w, r: r, shard: shard, nshards: nshards, txCache: map[string]sdk.Tx{},
+	e := &env{w: w, r: r, shard: shard, nshards: nshards, txCache: map[string]sdk.Tx{}, pend: map[string][]pending{},
 		adm: w.User("adm"), u1: w.User("U1"), u2: w.User("U2"), ex: w.User("EX"), poor: w.User("POOR")}
 	var err error
 	e.taxDenom, err = w.BridgeToken(ctx, e.adm, "tax", ref, erc20s[0], 0)
@@ -139,6 +141,7 @@ func run(r *report.Run, shard, nshards int, replayFile string) {
 		"rejected-by-limit sends are additionally re-run directly on keeper.UpdateBridgeTransferUsageWithLimit without a transaction cache ('checked before persisting' is the property's named mechanism); this seam check is stricter than the transaction-level statement",
 	}
 
+	defer e.flush()
 	if replayFile != "" {
 		e.replay(replayFile)
 		return
@@ -163,8 +166,35 @@ func run(r *report.Run, shard, nshards int, replayFile string) {
 	r.Extra["keeper_seam_rejections_checked"] = e.keeperSeam
 }
 
-func (e *env) violate(f *explore.Fail, replay interface{}) {
-	e.r.Violate(f.Signature, f.Message, replay)
+type pending struct {
+	f      *explore.Fail
+	replay interface{}
+	size   int
+}
+
+// violate buffers a violation; per signature the three smallest inputs are
+// reported (flush), so that counterexamples are as short as this shard saw.
+func (e *env) violate(f *explore.Fail, replay interface{}, size int) {
+	l := append(e.pend[f.Signature], pending{f, replay, size})
+	sort.SliceStable(l, func(i, j int) bool { return l[i].size < l[j].size })
+	if len(l) > 3 {
+		l = l[:3]
+	}
+	e.pend[f.Signature] = l
+}
+
+func (e *env) flush() {
+	sigs := make([]string, 0, len(e.pend))
+	for s := range e.pend {
+		sigs = append(sigs, s)
+	}
+	sort.Strings(sigs)
+	for _, s := range sigs {
+		for _, p := range e.pend[s] {
+			e.r.Violate(p.f.Signature, p.f.Message, p.replay)
+		}
+	}
+	e.pend = map[string][]pending{}
 }
 
 func (e *env) late() bool {
@@ -318,7 +348,7 @@ func (e *env) partTax() {
 						e.r.Extra[k] = v + 1
 					}
 					if f != nil {
-						e.violate(f, c)
+						e.violate(f, c, len(c.Amount))
 					}
 					if i%211 == 0 {
 						e.r.Sample(map[string]interface{}{"case": c, "outcome": outcome})
@@ -396,7 +426,9 @@ func (e *env) runTax(c taxCase) (outcome string, fail *explore.Fail) {
 		if expectOK {
 			if !interFits {
 				e.interOverflow++
-				e.r.Sample(map[string]interface{}{"note": "representable and funded send rejected: intermediate value exceeds 256 bits", "case": c, "error": res.Err.Error()})
+				if e.interOverflow == 1 {
+					e.r.Sample(map[string]interface{}{"note": "representable and funded send rejected: intermediate value exceeds 256 bits", "case": c, "error": res.Err.Error()})
+				}
 				return "rejected-intermediate-overflow", nil
 			}
 			return "", explore.Failf("tax-send-rejected", "send of %s (rate %s, exempt %v) with balance %s >= cost %s was rejected: %v", a, c.Rate, c.Exempt, bal, total, res.Err)
@@ -802,7 +834,7 @@ func (e *env) dfs(c *limCfg, ctx sdk.Context, m *model, path []step, hmin int, d
 				}
 			}
 			if f != nil {
-				e.violate(f, map[string]interface{}{"part": "limit", "period": c.Period, "limit": c.Limit, "steps": p})
+				e.violate(f, map[string]interface{}{"part": "limit", "period": c.Period, "limit": c.Limit, "steps": p}, len(p))
 				continue
 			}
 			if depth+1 < c.depth {
@@ -900,7 +932,7 @@ func (e *env) replay(file string) {
 		e.r.Case("replay|" + outcome)
 		e.r.Sample(map[string]interface{}{"case": c, "outcome": outcome})
 		if f != nil {
-			e.violate(f, c)
+			e.violate(f, c, 0)
 		}
 	case "limit":
 		var in struct {
@@ -918,7 +950,7 @@ func (e *env) replay(file string) {
 			e.r.Case(fmt.Sprintf("replay|%d|%s", i, outcome))
 			e.r.Sample(map[string]interface{}{"step": s.String(), "outcome": outcome})
 			if f != nil {
-				e.violate(f, v.Replay)
+				e.violate(f, v.Replay, 0)
 				return
 			}
 		}
